@@ -409,6 +409,100 @@ def bare_body_entry_type(sx, p):
     return sx.And(*ok)
 
 
+# ---------------------------------------------------------------- registration order: a subclass met before its base
+class Animal(ComplexModel):
+    __namespace__ = 'tns'
+    a = Integer
+
+
+class Cat(Animal):
+    __namespace__ = 'tns'
+    c = Unicode
+
+
+class Dog(Animal):
+    __namespace__ = 'tns'
+    d = Unicode
+
+
+class Puppy(Dog):
+    __namespace__ = 'tns'
+    e = Unicode
+
+
+ANIMALS = [Animal, Cat, Dog, Puppy]
+AFIELDS = {Animal: ['a'], Cat: ['a', 'c'], Dog: ['a', 'd'], Puppy: ['a', 'd', 'e']}
+
+
+class CatFirstSvc(Service):
+    # the interface meets the subclass Cat first; Animal is only reached as its parent, Dog and Puppy through Animal
+    @rpc(Cat, _returns=Cat)
+    def first_cat(ctx, c):
+        return c
+
+    @rpc(Animal, _returns=Animal, _body_style='bare')
+    def echo_animal(ctx, b):
+        RET['got'] = b
+        return b
+
+
+AAPPS = {}
+
+
+@harness('C16', params=[(pn, ci) for pn in ('Soap11', 'Soap12', 'XmlDocument') for ci in range(4)],
+         label=lambda p: '%s runtime=%s' % (p[0], ANIMALS[p[1]].__name__),
+         functions=['spyne.interface._base.Interface.add_class', 'spyne.protocol.xml.XmlDocument.from_element'],
+         bounds={'universe': 'Animal <- Cat, Animal <- Dog <- Puppy; the first method of the service is declared with Cat, a later one '
+                             'with Animal', 'request': 'the body entry carries the xsi:type of each of the four classes and its fields'})
+def subclass_met_before_base(sx, p):
+    """every subclass of a declared class can be named by a type marker, whichever member of the family the interface met
+    first: siblings of an already registered subclass (and their subclasses) included"""
+    pname, ci = p
+    if pname not in AAPPS:
+        P = {'XmlDocument': XmlDocument, 'Soap11': Soap11, 'Soap12': Soap12}[pname]
+        app = Application([CatFirstSvc], 'tns', in_protocol=P(polymorphic=True), out_protocol=P(polymorphic=True))
+        AAPPS[pname] = (app, ServerBase(app))
+    app, server = AAPPS[pname]
+    prot = app.in_protocol
+    cls = ANIMALS[ci]
+    marker = cls.get_type_name_ns(app.interface)
+    nsmap = dict(app.interface.nsmap)
+    vals, kids = {}, []
+    for f in AFIELDS[cls]:
+        vals[f] = sx.digits('v_' + f, 1) if f == 'a' else sx.text('v_' + f, 1, alphabet='xyz')
+        kids.append(mk_element(sx, '{tns}' + f, text=vals[f], nsmap=nsmap))
+    el = mk_element(sx, '{tns}echo_animal', attrib={'{%s}type' % XSI_NS: marker}, children=kids, nsmap=nsmap)
+    RET.clear()
+    if sx.symbolic:
+        ctx = MethodContext(server, MethodContext.SERVER)
+        ctx.in_document = el
+        ctx.in_body_doc = el
+        ctx.in_header_doc = None
+        ctx.method_request_string = el.tag
+        ctx, = prot.generate_method_contexts(ctx)
+        prot.deserialize(ctx, prot.REQUEST)
+        got = ctx.in_object
+    else:
+        from lxml import etree
+        body = etree.tostring(el)
+        if pname != 'XmlDocument':
+            env = 'http://schemas.xmlsoap.org/soap/envelope/' if pname == 'Soap11' else 'http://www.w3.org/2003/05/soap-envelope'
+            body = ('<e:Envelope xmlns:e="%s"><e:Body>' % env).encode() + body + b'</e:Body></e:Envelope>'
+        ctx = MethodContext(server, MethodContext.SERVER)
+        ctx.in_string = [body]
+        ctx, = server.generate_contexts(ctx)
+        server.get_in_object(ctx)
+        if ctx.in_error is not None:
+            return False
+        server.get_out_object(ctx)
+        got = RET.get('got')
+    ok = [type(got) is cls]
+    for f in AFIELDS[cls]:
+        want = sx.digits_value(vals[f]) if f == 'a' else vals[f]
+        ok.append(sx.eq(getattr(got, f, None), want))
+    return sx.And(*ok)
+
+
 # ---------------------------------------------------------------- prefix allocation: one inductive step
 @harness('C16', params=[0, 1, 2, 3], label=lambda n: 'entries=%d' % n,
          functions=['spyne.interface._base.Interface.get_namespace_prefix'],
